@@ -653,7 +653,8 @@ impl<'a> Searcher<'a> {
 
         // Prevents infinite loops and repeated listings when following symlinks:
         // every real directory is searched once, however its path is spelled
-        if self.current_follow_symlinks && !self.visited_dirs.insert(PathBuf::from(&canonical_path)) {
+        // (also for a root without the option: another root of the same query may have reached it through a link)
+        if !self.visited_dirs.insert(PathBuf::from(&canonical_path)) {
             return Ok(());
         }
 
